@@ -8,18 +8,14 @@ max_size = 10**6
 
 
 def max_pair_coverage(array1: npt.NDArray[np.int32], array2: npt.NDArray[np.int32]) -> float:
-    def hash_pair(el1: np.int32, el2: np.int32):
-        return (el1 * 1471343 - el2) % max_size
-
-    # small integer dtypes (e.g. int8 category codes) overflow in hash_pair under numpy >= 2
+    # small integer dtypes (e.g. int8 category codes) overflow under numpy >= 2
     array1 = np.asarray(array1, dtype=np.int64)
     array2 = np.asarray(array2, dtype=np.int64)
 
-    counts = np.zeros(max_size, dtype=np.int32)
+    # joint values are counted exactly: hashing the pairs into max_size buckets merged
+    # distinct pairs of higher-cardinality columns and inflated the coverage
     tot_len = len(array1)
-    for i in range(tot_len):
-        identifier = hash_pair(array1[i], array2[i])
-        counts[identifier] += 1
+    _, counts = np.unique(np.stack((array1, array2), axis=1), axis=0, return_counts=True)
 
     return np.max(counts) / tot_len
 
